@@ -779,6 +779,13 @@ func (g *G) forOver(t Ty, depth int, body func(v string) ast.Node) (ast.Node, bo
 				v = v + "x"
 			}
 		}
+		if i == 0 && g.R.Chance(1, 3) {
+			// reuse an existing variable of the element type as loop variable (not one the iterators read)
+			if ex, ok := g.assignTarget(t); ok {
+				v = ex
+				g.cls("for:existing-variable")
+			}
+		}
 		vars = append(vars, v)
 		if i == 0 {
 			g.declare(v, t, true)
